@@ -245,8 +245,9 @@ class LocalModelDirectoryDatabaseTransaction(ModelTransaction):
         # matching this hash only
         h = self.key.dataset_hash
         h_dir = datasets_path / DIRECTORY_INDEX / str(h)
-        if h_dir.is_dir():
-            hpath = next(h_dir.iterdir())
+        # NOTE: An interrupted store can leave the index directory without an entry
+        hpath = next(h_dir.iterdir(), None) if h_dir.is_dir() else None
+        if hpath is not None:
             # NOTE: This variable holds a string similar to "run1.csv"
             matching_model_filename = hpath.name
             data_path = datasets_path / matching_model_filename
